@@ -142,7 +142,7 @@ def run(ck):
                     cases.append(join_case(rng, pkts, k, gop, False, flv))
                     if rng.random() < 0.5:
                         cases.append(join_case(rng, pkts, min(k, len(pkts) - 1), gop, True, flv))
-    ck.stream("join-at-every-prefix", cases, "C02_lts", "C02_lts", None,
+    ck.stream("join-at-every-prefix", cases, "C02_lts", "C02_lts", "C02_ok",
               nontrivial=lambda c: len(c[4]) >= 4, sig=lambda c, e, o: "lts", timeout=1500)
     return ck.finish(rule="(1) random RTP payloads (single NAL, STAP/AP incl. truncated and zero-size entries, FU with all S/E bits, garbage, "
                           "non-video channels) and FLV tags (full frame-type/codec nibbles, near-miss onMetaData) through the real "
